@@ -14,6 +14,7 @@ import NbioVerif.Lemmas.SrcBridgeConn
 #print axioms ConnFull.c04_et_report_flushes
 #print axioms ConnFull.c04_et_edge_counterexample_early
 #print axioms ConnFull.c04_drains
+#print axioms ConnFull.c04_tail_is_three_steps
 #print axioms ConnFull.src_pModWrite
 #print axioms ConnFull.src_pResetRead
 #print axioms ConnFull.src_pAddRead
